@@ -212,6 +212,11 @@ func genC18(verifSeed int64, tier string, idx int) *core.Scenario {
 				ops = append(ops, Op{K: "WWrite", D: r.Intn(nw)})
 			case k < 9 && nw > 0:
 				ops = append(ops, Op{K: "WWriteOpt", D: r.Intn(nw), F: c18RealFormats[r.Intn(3)], I: 1 + r.Intn(7)})
+			case nw+nr > 0 && r.Intn(3) == 0:
+				// configuring a live instance in place through its exported Options
+				ops = append(ops, Op{K: "Config", D: r.Intn(nw + nr), I: call, A: []string{"format", "render", "store", "fmtopts", "retrieve"}[r.Intn(5)]})
+			case nw+nr > 0 && r.Intn(4) == 0:
+				ops = append(ops, Op{K: "StoreRetrieve", D: r.Intn(nw + nr), I: call})
 			case nr > 0 && r.Intn(2) == 0:
 				ops = append(ops, Op{K: "RParseOpt", D: r.Intn(nr), F: c18RealFormats[r.Intn(3)]})
 			case nr > 0:
@@ -598,6 +603,90 @@ func (env *c18env) mkOp(rec *opRec) func() string {
 					t.violate("leak:writer:RenderOptions:per-call", fmt.Sprintf("per-call indent %d on writer #%d produced indentation %d, the driver alone gives %d", op.I, in.call, got, want))
 				}
 			}
+			if before != "ok" {
+				return before
+			}
+			return env.observe(t, in, "percall")
+		}
+	case "Config":
+		return func() string {
+			if len(t.insts) == 0 {
+				return "none"
+			}
+			in := t.insts[op.D%len(t.insts)]
+			if env.observe(t, in, "later") != "ok" {
+				return "already-off"
+			}
+			// the change goes through the instance's own exported configuration, in place
+			switch {
+			case in.kind == "W" && op.A == "format":
+				in.w.Options.Format = formats.Format(fmt.Sprintf("application/x-verif-cfg%d+json;version=1", op.I))
+				in.model["Format"] = string(in.w.Options.Format)
+			case in.kind == "W" && op.A == "render" && in.w.Options.RenderOptions != nil:
+				in.w.Options.RenderOptions.Indent = 200 + op.I
+				in.model["RenderOptions"] = fmt.Sprintf("indent=%d", 200+op.I)
+			case in.kind == "W" && op.A == "store" && in.w.Options.StoreOptions != nil:
+				in.w.Options.StoreOptions.NoClobber = !in.w.Options.StoreOptions.NoClobber
+				in.w.Options.StoreOptions.BackendOptions = fmt.Sprintf("cfg-%d", op.I)
+				in.model["StoreOptions"] = fmt.Sprintf("noclobber=%v backend=cfg-%d", in.w.Options.StoreOptions.NoClobber, op.I)
+			case in.kind == "W" && op.A == "fmtopts":
+				in.w.Options.SetFormatOptions("never-set", fmt.Sprintf("cfg-%d", op.I))
+				in.model["fmtopt:never-set"] = fmt.Sprintf("cfg-%d", op.I)
+			case in.kind == "R" && op.A == "retrieve" && in.r.Options.RetrieveOptions != nil:
+				in.r.Options.RetrieveOptions.BackendOptions = fmt.Sprintf("cfg-%d", op.I)
+				in.model["RetrieveOptions"] = fmt.Sprintf("backend=cfg-%d", op.I)
+			case in.kind == "R" && op.A == "fmtopts":
+				in.r.Options.SetFormatOptions("never-set", fmt.Sprintf("cfg-%d", op.I))
+				in.model["fmtopt:never-set"] = fmt.Sprintf("cfg-%d", op.I)
+			case in.kind == "R" && op.A == "format":
+				in.r.Options.Format = formats.Format(fmt.Sprintf("application/x-verif-cfg%d+json;version=1", op.I))
+				in.model["Format"] = string(in.r.Options.Format)
+			default:
+				return "not-applicable"
+			}
+			t.probes["instance configured in place after construction"]++
+			for _, other := range t.insts {
+				other.nLater++ // counts like a later constructor for the "observed after" probe
+			}
+			return env.observe(t, in, "later")
+		}
+	case "StoreRetrieve":
+		return func() string {
+			if len(t.insts) == 0 {
+				return "none"
+			}
+			in := t.insts[op.D%len(t.insts)]
+			before := env.observe(t, in, "later")
+			// calls that go to the storage backend (the default backend without a directory fails
+			// harmlessly); what matters here is what they do to configuration
+			if in.kind == "W" {
+				switch op.I % 3 {
+				case 0:
+					_ = in.w.Store(env.doc)
+				case 1:
+					o := &writer.Options{}
+					_ = in.w.StoreWithOptions(env.doc, o)
+					if o.StoreOptions != nil || o.Format != "" || o.RenderOptions != nil || o.SerializeOptions != nil {
+						t.violate("leak:writer:per-call-options-modified", "StoreWithOptions wrote into the options set it was given")
+					}
+				default:
+					_ = in.w.StoreWithOptions(env.doc, &writer.Options{StoreOptions: &storage.StoreOptions{NoClobber: true, BackendOptions: "percall"}})
+				}
+			} else {
+				switch op.I % 3 {
+				case 0:
+					_, _ = in.r.Retrieve("some-id")
+				case 1:
+					o := &reader.Options{}
+					_, _ = in.r.RetrieveWithOptions("some-id", o)
+					if o.RetrieveOptions != nil || o.Format != "" || o.UnserializeOptions != nil {
+						t.violate("leak:reader:per-call-options-modified", "RetrieveWithOptions wrote into the options set it was given")
+					}
+				default:
+					_, _ = in.r.RetrieveWithOptions("some-id", &reader.Options{RetrieveOptions: &storage.RetrieveOptions{BackendOptions: "percall"}})
+				}
+			}
+			t.probes["store/retrieve call on a live instance"]++
 			if before != "ok" {
 				return before
 			}
